@@ -430,6 +430,23 @@ fn gen_knots(rng: &mut Rng, n: usize) -> Vec<f64> {
             xs[k] = 0.0;
         }
     }
+    if style == 4 && n >= 4 {
+        // dyadic grid whose first and last spacings are bit-identical while an interior one differs:
+        // equal end spacings do not make a grid uniform
+        let h0 = 0.5f64.powi(rng.below(3) as i32);
+        let mut v = vec![rng.int(-8, 0) as f64];
+        for i in 0..n - 1 {
+            let h = if i == 0 || i == n - 2 { h0 } else { h0 * [0.5, 1.0, 1.5, 2.0, 3.5][rng.below(5)] };
+            let nx = v.last().unwrap() + h;
+            v.push(nx);
+        }
+        if v.windows(2).skip(1).take(n - 3).any(|w| w[1] - w[0] != h0) && *v.last().unwrap() <= 40.0 {
+            // (keep inside [-10, 10]: scale by a power of two if necessary - exact)
+            let span = v[n - 1] - v[0];
+            let k = if span > 18.0 { 0.5f64.powi(((span / 18.0).log2().ceil()) as i32) } else { 1.0 };
+            return v.iter().map(|x| x * k).collect();
+        }
+    }
     if style == 2 {
         // the first or the last knot is exactly zero, of either sign (a mirrored grid ends in -0.0)
         let s = if rng.bool() { xs[0] } else { xs[n - 1] };
